@@ -5,6 +5,22 @@
 #define CT_H
 #include <stdint.h>
 #include <stddef.h>
+#ifdef WW_MODE
+/* write-watch mode (C18): no store instruction may target the objects the caller passed as pointer-to-const */
+extern const void *ww_obj[2];
+#ifdef REPLAY
+#include <stdio.h>
+#include <stdlib.h>
+extern size_t ww_size[2];
+#define CT_STORE(id,p) do { for (int w_ = 0; w_ < 2; w_++) if (ww_obj[w_] && (const uint8_t *)(p) >= (const uint8_t *)ww_obj[w_] && (const uint8_t *)(p) < (const uint8_t *)ww_obj[w_] + ww_size[w_]) { printf("REPLAY-FAIL: store into a read-only object (site %d)\n", (int)(id)); fflush(stdout); exit(1); } } while (0)
+#else
+#define CT_STORE(id,p) __CPROVER_assert(!(ww_obj[0] && __CPROVER_POINTER_OBJECT(p) == __CPROVER_POINTER_OBJECT(ww_obj[0])) && !(ww_obj[1] && __CPROVER_POINTER_OBJECT(p) == __CPROVER_POINTER_OBJECT(ww_obj[1])), "no store targets an object that the caller passed as read-only (key schedule / parallel-ECB object): concurrent readers write nothing")
+#endif
+#define CT_BR(id,c) ((void)0)
+#define CT_ADDR(id,p) ((void)0)
+#define CT_LEN(id,n) ((void)0)
+#else
+#define CT_STORE(id,p) ((void)0)
 #ifndef CT_MAX
 #define CT_MAX 6000
 #endif
@@ -36,4 +52,5 @@ static inline void ct_event(uint64_t v)
 #define CT_ADDR(id,p) ct_event(((uint64_t)(id) << 48) ^ ((uint64_t)__CPROVER_POINTER_OBJECT(p) << 32) ^ (uint64_t)__CPROVER_POINTER_OFFSET(p))
 #define CT_LEN(id,n)  ct_event(((uint64_t)(id) << 48) ^ (uint64_t)(n))
 #endif
+#endif /* WW_MODE */
 #endif
